@@ -55,6 +55,28 @@ fn args(tier: Tier) -> Vec<(String, BigRational)> {
             }
         }
     }
+    // fine boundaries: integers and halves +- 10^-k for k up to 25, at magnitudes around 0, 2^53,
+    // 2^63 and 2^64 (any machine-word or floating-point shortcut loses these)
+    for m in ["0", "2", "3", "1000000000000000", "9007199254740992", "9007199254740993", "9223372036854775807", "18446744073709551616"] {
+        let mut fr: Vec<String> = vec!["".into(), ".5".into()];
+        for k in [8usize, 12, 15, 16, 17, 18, 19, 20, 25] {
+            fr.push(format!(".4{}", "9".repeat(k - 1)));
+            fr.push(format!(".5{}1", "0".repeat(k - 2)));
+            fr.push(format!(".{}1", "0".repeat(k - 1)));
+            fr.push(format!(".{}", "9".repeat(k)));
+        }
+        for f in fr {
+            for sign in ["", "-"] {
+                let text = format!("{sign}{m}{f}");
+                if let Some(val) = crate::refcalc::ref_decimal(&text) {
+                    v.push((text, val));
+                }
+            }
+        }
+    }
+    for s in ["1.00499999999999999", "1.00500000000000001", "-1.00499999999999999", "-1.00500000000000001", "0.049999999999999999", "0.050000000000000001", "123456789012345.675", "123456789012345.674999999"] {
+        v.push((s.to_string(), crate::refcalc::ref_decimal(s).unwrap()));
+    }
     // values for digit rounding
     for s in ["1234.5678", "-1234.5678", "0.05", "-0.05", "0.15", "0.25", "-0.25", "1234567.891", "999999.5", "-999999.5", "5", "15", "-15", "25", "149", "150", "-150", "0.0000005", "0.00000049"] {
         v.push((s.to_string(), crate::refcalc::ref_decimal(s).unwrap()));
@@ -89,7 +111,7 @@ impl Prop for C10 {
         vec!["release", "verif-debug"]
     }
     fn rule(&self) -> String {
-        "x = p/q (|p|<=40,q<=8; thorough |p|<=60,q<=12) spelled `p / q`, `(p / q)` or as an integer; exact halves and boundary +- 10^-k (k<=7) as decimals; x {floor, ceil, round, round(x,n) for n in -6..6}; arguments carrying a unit (km, m/s, decades) with the unit required on the result; wrong arities 0,2,3 (floor/ceil) and 0,3 (round). Both build profiles (release; release+debug-assertions+overflow-checks). Non-trivial = the argument is not an integer or digits != 0; distinct = distinct query strings".into()
+        "x = p/q (|p|<=40,q<=8; thorough |p|<=60,q<=12) spelled `p / q`, `(p / q)` or as an integer; exact halves and boundary +- 10^-k (k<=7) as decimals; fine boundaries (integer and half +- 10^-k for k in 8..25 at magnitudes 0, 2, 3, 1e15, 2^53, 2^53+1, 2^63-1, 2^64, both signs); x {floor, ceil, round, round(x,n) for n in -6..6}; arguments carrying a unit (km, m/s, decades) with the unit required on the result; wrong arities 0,2,3 (floor/ceil) and 0,3 (round). Both build profiles (release; release+debug-assertions+overflow-checks). Non-trivial = the argument is not an integer or digits != 0; distinct = distinct query strings".into()
     }
     fn assumptions(&self) -> Vec<String> {
         vec!["a non-integer digits argument is not judged".into()]
